@@ -21,6 +21,13 @@ crate-type = ["lib"]
 
 [dependencies]
 
+# the crate's own #[cfg(test)] modules need these when a counterexample is replayed natively
+# (`cargo kani playback` builds the lib's test target); versions are pinned by /repo/Cargo.lock
+[dev-dependencies]
+primal = "0.3"
+rand = "0.9"
+threadpool = "1.7"
+
 [features]
 default = ["std"]
 benchmarking = ["std"]
@@ -59,6 +66,8 @@ class Overlay:
             shutil.rmtree(self.dir)
         os.makedirs(self.dir)
         shutil.copytree(os.path.join(REPO, "src"), os.path.join(self.dir, "src"))
+        if os.path.exists(os.path.join(REPO, "Cargo.lock")):
+            shutil.copy(os.path.join(REPO, "Cargo.lock"), os.path.join(self.dir, "Cargo.lock"))
         with open(os.path.join(self.dir, "Cargo.toml"), "w") as f:
             f.write(CARGO_TOML % ("true" if debug_assertions else "false",
                                   "true" if overflow_checks else "false"))
